@@ -544,3 +544,280 @@ Proof.
   - unfold p_forbidden. rewrite E. reflexivity.
   - apply negb_true_iff. apply (sweep (fun c => negb (p_forbidden true c)) _ sweep_forb_1_1). lia.
 Qed.
+(* ---- 4. CDATA sections -------------------------------------------------------------------------------- *)
+Definition cd (v11 : bool) (s : list N) := cdata_loop fam_utf16 v11 s false.
+
+Definition split3 (l : list N) : bool :=
+  match l with c :: a :: b :: _ => (c =? 93) && (a =? 93) && (b =? 62) | _ => false end.
+
+Lemma cd_split : forall v11 r,
+  cd v11 (93 :: 93 :: 62 :: r) =
+  (u16_unit 93 ++ u16_unit 93 ++ u16_block s_cdata_close ++ u16_block s_cdata_open ++ u16_unit 62 ++
+   fst (cd v11 r), snd (cd v11 r)).
+Proof.
+  intros v11 r. unfold cd. cbn [cdata_loop].
+  assert (L : longer_than cdata_lookahead_gt (93 :: 93 :: 62 :: r) = true) by reflexivity.
+  rewrite L. change (93 =? 93) with true. change (62 =? 62) with true. cbn [andb]. cbv iota.
+  destruct (cdata_loop fam_utf16 v11 r false) as [its o]. reflexivity.
+Qed.
+
+Lemma cd_plain : forall v11 c r, split3 (c :: r) = false ->
+  cd v11 (c :: r) =
+  if c =? 10 then (u16_block [10] ++ fst (cd v11 r), snd (cd v11 r))
+  else if p_crforbidden v11 c then ([IThrow err_forbidden], false)
+  else (u16_unit c ++ fst (cd v11 r), snd (cd v11 r)).
+Proof.
+  intros v11 c r H. unfold cd. cbn [cdata_loop]. cbv zeta. cbn [f_cdata_char f_newline fam_utf16].
+  assert (P : (if c =? 10
+      then let '(its, o) := cdata_loop fam_utf16 v11 r false in (u16_block [10] ++ its, o)
+      else if p_crforbidden v11 c then ([IThrow err_forbidden], false)
+      else let '(its2, o2) := cdata_loop fam_utf16 v11 r false in (u16_unit c ++ its2, o2)) =
+     (if c =? 10 then (u16_block [10] ++ fst (cdata_loop fam_utf16 v11 r false), snd (cdata_loop fam_utf16 v11 r false))
+  else if p_crforbidden v11 c then ([IThrow err_forbidden], false)
+  else (u16_unit c ++ fst (cdata_loop fam_utf16 v11 r false), snd (cdata_loop fam_utf16 v11 r false)))).
+  { destruct (cdata_loop fam_utf16 v11 r false); reflexivity. }
+  rewrite P. clear P.
+  destruct (c =? 93) eqn:E; [|reflexivity].
+  destruct (longer_than cdata_lookahead_gt (c :: r)); [|reflexivity].
+  destruct r as [|a [|b r'']]; try reflexivity.
+  destruct ((a =? 93) && (b =? 62)) eqn:E2; [|reflexivity].
+  cbn [split3] in H. rewrite E in H. rewrite <- andb_assoc, E2 in H. discriminate.
+Qed.
+
+Definition cdata_ok (v11 : bool) (c : N) : bool :=
+  negb (c =? 13) && negb (v11 && ((c =? 133) || (c =? 8232) || p_crforbidden true c)).
+Definition cdata_guard (v11 : bool) (s : list N) : bool := forallb (cdata_ok v11) s.
+
+Definition eolfree (v11 : bool) (b : N) : bool :=
+  negb (b =? 13) && negb (v11 && ((b =? 133) || (b =? 8232))).
+
+Lemma eol_norm_free : forall v11 bs, forallb (eolfree v11) bs = true -> eol_norm v11 bs = bs.
+Proof.
+  induction bs as [|c r IH]; intros H; [reflexivity|].
+  cbn [forallb] in H. apply andb_true_iff in H. destruct H as [H1 H2].
+  cbn [eol_norm]. unfold eolfree in H1.
+  destruct (c =? 13) eqn:E1; [cbn in H1; lia|].
+  destruct (v11 && ((c =? 133) || (c =? 8232))) eqn:E2; [rewrite andb_false_r in H1; discriminate|].
+  rewrite IH; auto.
+Qed.
+
+Lemma cdata_ok_eolfree : forall v11 c, cdata_ok v11 c = true -> eolfree v11 c = true.
+Proof. intros v11 c H. unfold cdata_ok in H. unfold eolfree. destruct v11; lia. Qed.
+
+(* table sweeps for CDATA *)
+Lemma sweep_crf_1_0 :
+  forallb (fun c => negb (xml_char false c) || negb (p_crforbidden false c)) (upto (sp_last false)) = true.
+Proof. vm_compute. reflexivity. Qed.
+Lemma sweep_crf_1_1 :
+  forallb (fun c => p_crforbidden true c || negb (restricted_char true c)) (upto (sp_last true)) = true.
+Proof. vm_compute. reflexivity. Qed.
+
+Lemma crf_false : forall v11 c, xml_char v11 c = true \/ x_high c = true \/ x_low c = true ->
+  cdata_ok v11 c = true -> p_crforbidden v11 c = false.
+Proof.
+  intros v11 c Hx Hg. destruct v11.
+  - unfold cdata_ok in Hg. lia.
+  - destruct (sp_last false <? c) eqn:E.
+    + unfold p_crforbidden. rewrite E. reflexivity.
+    + destruct Hx as [Hx|Hx].
+      * pose proof (sweep _ _ sweep_crf_1_0 c ltac:(lia)) as H. cbv beta in H. rewrite Hx in H.
+        cbn [negb orb] in H. apply negb_true_iff in H. exact H.
+      * unfold x_high, x_low, x_in, sp_last, last_special_1_0 in *. lia.
+Qed.
+
+Lemma cdata_lit : forall v11 c, xml_char v11 c = true -> cdata_ok v11 c = true -> literal_ok v11 c = true.
+Proof.
+  intros v11 c Hx Hg. unfold literal_ok. rewrite Hx. destruct v11; [|reflexivity].
+  destruct (sp_last true <? c) eqn:E.
+  - unfold restricted_char, x_in, sp_last, last_special_1_1 in *. lia.
+  - pose proof (sweep _ _ sweep_crf_1_1 c ltac:(lia)) as H. cbv beta in H.
+    unfold cdata_ok in Hg. assert (Hc : p_crforbidden true c = false) by lia. rewrite Hc in H.
+    cbn [orb] in H. rewrite H. reflexivity.
+Qed.
+
+(* the reader inside a CDATA section *)
+Lemma scan_cdata_lit : forall v11 c rest f, x_high c = false -> x_low c = false ->
+  literal_ok v11 c = true -> starts_with [93; 93; 62] (c :: rest) = None ->
+  scan_content v11 (S f) true (c :: rest) = option_map (cons c) (scan_content v11 f true rest).
+Proof. intros v11 c rest f H1 H2 H3 H4. cbn [scan_content]. rewrite H4, H1, H2, H3. reflexivity. Qed.
+
+Lemma scan_cdata_pair : forall v11 hi lo rest f, x_high hi = true -> x_low lo = true ->
+  scan_content v11 (S f) true (hi :: lo :: rest) =
+  option_map (fun t => hi :: lo :: t) (scan_content v11 f true rest).
+Proof.
+  intros v11 hi lo rest f Hh Hl. cbn [scan_content starts_with]. rewrite Hh, Hl.
+  unfold x_high, x_in in Hh. destruct (93 =? hi) eqn:E3; [lia|]. reflexivity.
+Qed.
+
+Lemma scan_cdata_split : forall v11 rest f,
+  scan_content v11 (S (S (S (S (S f))))) true
+    ([93; 93] ++ s_cdata_close ++ s_cdata_open ++ 62 :: rest) =
+  option_map (fun t => 93 :: 93 :: 62 :: t) (scan_content v11 f true rest).
+Proof.
+  intros v11 rest f. destruct v11; cbn; destruct (scan_content _ f true rest); reflexivity.
+Qed.
+
+Lemma scan_cdata_close : forall v11 f, scan_content v11 (S (S f)) true [93; 93; 62] = Some [].
+Proof. intros v11 f. reflexivity. Qed.
+
+Lemma firstn_2_1 : forall (a b : list N), firstn 2 a = firstn 2 b -> firstn 1 a = firstn 1 b.
+Proof.
+  intros [|x [|y a]] [|u [|v b]] H; cbn in *; inversion H; reflexivity.
+Qed.
+
+(* a literal ']' is not followed by "]>": the writer splits every "]]>" of the data *)
+Lemma bracket_safe : forall (r body : list N), split3 (93 :: r) = false -> firstn 2 body = firstn 2 r ->
+  starts_with [93; 93; 62] (93 :: body ++ [93; 93; 62]) = None.
+Proof.
+  intros r body Hs Hf. cbn [starts_with]. change (93 =? 93) with true. cbv iota.
+  destruct body as [|x [|y body]]; destruct r as [|u [|v r]]; cbn in Hf; try discriminate; cbn [app].
+  - reflexivity.
+  - destruct (93 =? x); reflexivity.
+  - inversion Hf; subst. cbn [split3] in Hs. change (93 =? 93) with true in Hs. cbn [andb] in Hs.
+    destruct (93 =? u) eqn:E1; [|reflexivity]. destruct (62 =? v) eqn:E2; [|reflexivity]. lia.
+Qed.
+
+Lemma cd_plain_payload : forall v11 c r, split3 (c :: r) = false -> p_crforbidden v11 c = false ->
+  payload (fst (cd v11 (c :: r))) =
+    match payload (fst (cd v11 r)) with Ok y => Ok (c :: y) | Oob => Oob | Thrown k => Thrown k end
+  /\ snd (cd v11 (c :: r)) = snd (cd v11 r).
+Proof.
+  intros v11 c r Hs Hc. rewrite (cd_plain _ _ _ Hs), Hc.
+  destruct (c =? 10) eqn:E; cbn [fst snd].
+  - apply N.eqb_eq in E. subst c. rewrite payload_app, payload_u16_block. split; reflexivity.
+  - rewrite payload_app, payload_u16_unit. split; reflexivity.
+Qed.
+
+Lemma cdata_main : forall v11 n s, (length s <= n)%nat -> wf_text v11 s = true ->
+  cdata_guard v11 s = true ->
+  exists body, payload (fst (cd v11 s)) = Ok body /\ snd (cd v11 s) = false /\
+    forallb (eolfree v11) body = true /\ firstn 2 body = firstn 2 s /\
+    forall f, (length body + 1 < f)%nat -> scan_content v11 f true (body ++ [93; 93; 62]) = Some s.
+Proof.
+  intros v11. induction n as [|n IH]; intros s Hlen Hw Hg.
+  { destruct s; [|cbn in Hlen; lia]. exists []. repeat split; try reflexivity.
+    intros [|[|f]] Hf; cbn in Hf; try lia. reflexivity. }
+  destruct s as [|c r].
+  { exists []. repeat split; try reflexivity. intros [|[|f]] Hf; cbn in Hf; try lia. reflexivity. }
+  destruct (split3 (c :: r)) eqn:Es.
+  - (* "]]>" *)
+    destruct r as [|a [|b r]]; try discriminate. cbn [split3] in Es.
+    assert (c = 93 /\ a = 93 /\ b = 62) as (-> & -> & ->) by lia.
+    assert (Hw' : wf_text v11 r = true).
+    { cbn [wf_text] in Hw. change (x_high 93) with false in Hw. change (x_low 93) with false in Hw.
+      change (x_high 62) with false in Hw. change (x_low 62) with false in Hw. cbv iota in Hw.
+      repeat (apply andb_true_iff in Hw; destruct Hw as [_ Hw]). exact Hw. }
+    assert (Hg' : cdata_guard v11 r = true).
+    { unfold cdata_guard in *. cbn [forallb] in Hg.
+      repeat (apply andb_true_iff in Hg; destruct Hg as [_ Hg]). exact Hg. }
+    destruct (IH r ltac:(cbn [length] in Hlen; lia) Hw' Hg') as (body & Hp & Ho & He & _ & Hsc).
+    exists ([93; 93] ++ s_cdata_close ++ s_cdata_open ++ 62 :: body).
+    rewrite cd_split. cbn [fst snd]. rewrite !payload_app, !payload_u16_unit, !payload_u16_block, Hp.
+    split; [reflexivity|]. split; [exact Ho|]. split.
+    { rewrite !forallb_app. cbn [forallb]. rewrite He. destruct v11; reflexivity. }
+    split; [reflexivity|].
+    intros f Hf. rewrite !app_length in Hf. unfold s_cdata_close, s_cdata_open in Hf. cbn [length] in Hf.
+    do 5 (destruct f as [|f]; [clear -Hf; lia|]).
+    rewrite <- !app_assoc. cbn [app]. 
+    change (93 :: 93 :: s_cdata_close ++ s_cdata_open ++ 62 :: body ++ [93; 93; 62])
+      with ([93; 93] ++ s_cdata_close ++ s_cdata_open ++ 62 :: (body ++ [93; 93; 62])).
+    rewrite scan_cdata_split. rewrite Hsc by (clear -Hf; lia). reflexivity.
+  - cbn [wf_text] in Hw. destruct (x_high c) eqn:Eh.
+    + (* surrogate pair *)
+      destruct r as [|lo r]; [discriminate|]. apply andb_true_iff in Hw. destruct Hw as [El Hw].
+      unfold cdata_guard in Hg. cbn [forallb] in Hg.
+      apply andb_true_iff in Hg. destruct Hg as [Hg1 Hg]. apply andb_true_iff in Hg. destruct Hg as [Hg2 Hg].
+      assert (Es2 : split3 (lo :: r) = false).
+      { destruct r as [|a [|b r]]; try reflexivity. cbn [split3]. unfold x_low, x_in in El. lia. }
+      destruct (IH r ltac:(cbn [length] in Hlen; lia) Hw Hg) as (body & Hp & Ho & He & _ & Hsc).
+      exists (c :: lo :: body).
+      destruct (cd_plain_payload v11 c (lo :: r) Es (crf_false _ _ (or_intror (or_introl Eh)) Hg1)) as [P1 O1].
+      destruct (cd_plain_payload v11 lo r Es2 (crf_false _ _ (or_intror (or_intror El)) Hg2)) as [P2 O2].
+      rewrite P1, P2, Hp, O1, O2. split; [reflexivity|]. split; [exact Ho|]. split.
+      { cbn [forallb]. rewrite He, (cdata_ok_eolfree _ _ Hg1), (cdata_ok_eolfree _ _ Hg2). reflexivity. }
+      split; [reflexivity|].
+      intros [|f] Hf; cbn [length] in Hf; [clear -Hf; lia|]. cbn [app].
+      rewrite scan_cdata_pair by assumption. rewrite Hsc by (clear -Hf; lia). reflexivity.
+    + destruct (x_low c) eqn:El; [discriminate|]. apply andb_true_iff in Hw. destruct Hw as [Hx Hw].
+      unfold cdata_guard in Hg. cbn [forallb] in Hg. apply andb_true_iff in Hg. destruct Hg as [Hg1 Hg].
+      destruct (IH r ltac:(cbn [length] in Hlen; lia) Hw Hg) as (body & Hp & Ho & He & Hfn & Hsc).
+      exists (c :: body).
+      destruct (cd_plain_payload v11 c r Es (crf_false _ _ (or_introl Hx) Hg1)) as [P1 O1].
+      rewrite P1, Hp, O1. split; [reflexivity|]. split; [exact Ho|]. split.
+      { cbn [forallb]. rewrite He, (cdata_ok_eolfree _ _ Hg1). reflexivity. }
+      split.
+      { change (firstn 2 (c :: body)) with (c :: firstn 1 body).
+        change (firstn 2 (c :: r)) with (c :: firstn 1 r). rewrite (firstn_2_1 _ _ Hfn). reflexivity. }
+      intros [|f] Hf; cbn [length] in Hf; [clear -Hf; lia|]. cbn [app].
+      rewrite scan_cdata_lit; auto.
+      * rewrite Hsc by (clear -Hf; lia). reflexivity.
+      * apply cdata_lit; assumption.
+      * destruct (c =? 93) eqn:E93.
+        -- apply N.eqb_eq in E93. subst c. apply (bracket_safe r); assumption.
+        -- cbn [starts_with]. rewrite N.eqb_sym, E93. reflexivity.
+Qed.
+
+Lemma scan_open : forall v11 f rest,
+  scan_content v11 (S f) false (s_cdata_open ++ rest) = scan_content v11 f true rest.
+Proof. reflexivity. Qed.
+
+Theorem cdata_roundtrip_guard : forall v11 s, wf_text v11 s = true -> cdata_guard v11 s = true ->
+  exists bs, payload (write_cdata fam_utf16 v11 s) = Ok bs /\ parse_content v11 bs = Some s.
+Proof.
+  intros v11 s Hw Hg.
+  destruct (cdata_main v11 (length s) s (le_n _) Hw Hg) as (body & Hp & Ho & He & _ & Hsc).
+  exists (s_cdata_open ++ body ++ s_cdata_close). split.
+  - unfold write_cdata. fold (cd v11 s). destruct (cd v11 s) as [its o]. cbn [fst snd] in *. subst o.
+    cbn [f_const fam_utf16]. rewrite !payload_app, !payload_u16_block, Hp. reflexivity.
+  - unfold parse_content. rewrite eol_norm_free.
+    + rewrite scan_open. apply Hsc. rewrite !app_length. unfold s_cdata_open, s_cdata_close.
+      cbn [length]. lia.
+    + rewrite !forallb_app, He. destruct v11; reflexivity.
+Qed.
+
+(* the guard, spelled out *)
+Theorem cdata_roundtrip_partial : forall v11 s, wf_text v11 s = true ->
+  ~ In 13 s ->
+  (v11 = true -> ~ In 133 s /\ ~ In 8232 s /\ forall c, In c s -> p_crforbidden true c = false) ->
+  exists bs, payload (write_cdata fam_utf16 v11 s) = Ok bs /\ parse_content v11 bs = Some s.
+Proof.
+  intros v11 s Hw H13 H11. apply cdata_roundtrip_guard; [exact Hw|].
+  apply forallb_forall. intros c Hc. unfold cdata_ok.
+  assert (E13 : (c =? 13) = false). { apply N.eqb_neq. intros ->. exact (H13 Hc). }
+  rewrite E13. destruct v11; [|reflexivity]. destruct (H11 eq_refl) as (A & B & C).
+  assert (E1 : (c =? 133) = false). { apply N.eqb_neq. intros ->. exact (A Hc). }
+  assert (E2 : (c =? 8232) = false). { apply N.eqb_neq. intros ->. exact (B Hc). }
+  rewrite E1, E2, (C c Hc). reflexivity.
+Qed.
+
+(* the unguarded statement is false: CR in a CDATA section is written literally *)
+Theorem cdata_roundtrip_refuted : forall v11,
+  wf_text v11 [13] = true /\
+  payload (write_cdata fam_utf16 v11 [13]) = Ok (s_cdata_open ++ [13] ++ s_cdata_close) /\
+  parse_content v11 (s_cdata_open ++ [13] ++ s_cdata_close) = Some [10].
+Proof. intros [|]; vm_compute; repeat split; reflexivity. Qed.
+
+Theorem cdata_roundtrip_false :
+  ~ (forall v11 s, wf_text v11 s = true -> s <> [] ->
+       exists bs, payload (write_cdata fam_utf16 v11 s) = Ok bs /\ parse_content v11 bs = Some s).
+Proof.
+  intros H. destruct (H false [13] eq_refl ltac:(discriminate)) as (bs & H1 & H2).
+  destruct (cdata_roundtrip_refuted false) as (_ & P & Q). rewrite P in H1. congruence.
+Qed.
+
+(* the other clauses of the guard are needed too (XML 1.1) *)
+Theorem cdata_nel_refuted :
+  wf_text true [133] = true /\
+  payload (write_cdata fam_utf16 true [133]) = Ok (s_cdata_open ++ [133] ++ s_cdata_close) /\
+  parse_content true (s_cdata_open ++ [133] ++ s_cdata_close) = Some [10].
+Proof. vm_compute; repeat split; reflexivity. Qed.
+
+Theorem cdata_lsep_refuted :
+  wf_text true [8232] = true /\
+  payload (write_cdata fam_utf16 true [8232]) = Ok (s_cdata_open ++ [8232] ++ s_cdata_close) /\
+  parse_content true (s_cdata_open ++ [8232] ++ s_cdata_close) = Some [10].
+Proof. vm_compute; repeat split; reflexivity. Qed.
+
+Theorem cdata_control_1_1_refuted :
+  wf_text true [1] = true /\ payload (write_cdata fam_utf16 true [1]) = Thrown err_forbidden.
+Proof. vm_compute; split; reflexivity. Qed.
